@@ -30,6 +30,23 @@ def _calls_in(facts, q):
 def inlinable_helper(facts, f, call, single_use=True):
     """the helper called by `call` (in f) when it may be inlined: an in-repo free function in the same file with a body, not
     recursive, called from this one place only, with as many arguments as parameters"""
+    if call.get('callee_lambda_id'):
+        # a local lambda (auto resolve = [this, &x](T &a, U b) { .. }): its body sees the enclosing function's variables under
+        # the same declarations; captures by value of anything but `this` would be copies taken at the lambda expression
+        hs = [h for h in facts.functions if h['q'] == call['callee_lambda_id'] and h.get('body') is not None and h['kind'] == 'lambda' and h['tmpl'] in ('none', 'inst')]
+        if len(hs) != 1 or len(hs[0].get('params', [])) != len(call.get('args', [])):
+            return None
+        h = hs[0]
+        lam = [x for x in walk_all_exprs(f['body']) if x.get('k') == 'lambda' and x.get('fn') == h['q']]
+        if len(lam) != 1 or any(not c.get('byref') and c.get('name') != 'this' for c in lam[0].get('captures', [])):
+            return None
+        if any(e.get('callee_lambda_id') == h['q'] for e in walk_all_exprs(h['body']) if e.get('k') == 'call'):
+            return None
+        if any(st['k'] in ('goto', 'label', 'try') for st in walk_stmts(h['body'])):
+            return None
+        if single_use and sum(1 for x in walk_all_exprs(f['body']) if x.get('k') == 'call' and x.get('callee_lambda_id') == h['q']) != 1:
+            return None
+        return h
     if not call.get('callee_in_repo') or call.get('ck') == 'operator':
         return None
     on_this = False
@@ -143,9 +160,37 @@ def _inline_one(facts, f, stmt, want=None, single_use=True):
     h = inlinable_helper(facts, f, call, single_use)
     if h is None or (want is not None and not want(h, call)):
         return None
-    body = copy.deepcopy(h['body'])
+    body = _fresh(h['body']) if not single_use else copy.deepcopy(h['body'])
+    params = h['params']
+    if not single_use:
+        # several copies of one helper in one function: the locals (and value parameters) of each copy are its own
+        params = copy.deepcopy(params)
+        ren = {}
+        for st in walk_stmts(body):
+            for v in (st.get('vars', []) if st['k'] == 'decl' else [st['var']] if st['k'] == 'rangefor' and isinstance(st.get('var'), dict) else []):
+                if v.get('d') is not None and not v.get('static_local'):
+                    _SYNTH[0] += 1
+                    ren[v['d']] = 50000000 + _SYNTH[0]
+                    v['d'] = ren[v['d']]
+        for p in params:
+            if '&' not in (p.get('cty') or ''):
+                _SYNTH[0] += 1
+                ren[p['d']] = 50000000 + _SYNTH[0]
+                p['d'] = ren[p['d']]
+        if ren:
+            def _ren(n):
+                if isinstance(n, list):
+                    for x in n:
+                        _ren(x)
+                elif isinstance(n, dict):
+                    if n.get('k') == 'ref' and n.get('d') in ren:
+                        n['d'] = ren[n['d']]
+                    for v in n.values():
+                        if isinstance(v, (dict, list)):
+                            _ren(v)
+            _ren(body)
     mapping, to_var, decls = {}, set(), []
-    for p, a in zip(h['params'], call['args']):
+    for p, a in zip(params, call['args']):
         pty = p.get('cty') or ''
         if '&' in pty:
             mapping[p['d']] = a
